@@ -37,7 +37,7 @@ META = {
     'components_stub': ['open() and os.path.getsize seen by the file-interception module (delegating proxies)', 'S3 bucket'],
     'budgets': {'quick': {'seconds': 25}, 'thorough': {'seconds': 300}},
     'required_probes': {'thorough': ['size_at_limit', 'size_limit_plus_1', 'size_limit_minus_1', 'content_is_placeholder', 'binary_all_bytes', 'empty_file',
-                                     'limit_from_environment', 'path_by_keyword', 'path_positional', 'read_fault', 'above_limit_not_opened']},
+                                     'limit_from_environment', 'path_by_keyword', 'path_positional', 'read_fault', 'above_limit_not_opened', 'stale_file_at_replay_path']},
 }
 
 
@@ -232,6 +232,15 @@ def _run(tape, clock, scratch, oproxy, osproxy):
             return run
         rec_id = rec_ids[-1]
         # ---- restart + replay at another path
+        # something may already sit at the path the replayed call names (an earlier replay, a stale download)
+        stale = tape.choice(['none', 'same_length', 'longer', 'shorter'])
+        exp_len = len(PLACEHOLDER if in_above else in_content)
+        if stale != 'none':
+            run.probe('stale_file_at_replay_path')
+            junk = {'same_length': bytes((b ^ 0x5a) for b in (PLACEHOLDER if in_above else in_content)) or b'', 'longer': b'#' * (exp_len + 7),
+                    'shorter': b'#' * max(0, exp_len - 1)}[stale]
+            with builtins.open(os.path.join(scratch, 'in-2.bin'), 'wb') as f:
+                f.write(junk)
         cas2 = store.open(read_only=True)
         rep_recorder = TapeRecorder(cas2)
         Svc2, seen2, out_handler2 = build(rep_recorder)
